@@ -111,6 +111,10 @@ def install(world, prng_seed=0.5):
     bind(F, "datetime", dtp)
     bind(V, "datetime", dtp)
     bind(F, "seed", prng_seed)
+    # the console: builtin print used by execute(echo=TRUE) and ConsoleOutput
+    cons = W.ConsoleProxy(world)
+    bind(F, "print", cons)
+    bind(V, "print", cons)
     # anything the repository might start importing later (pathlib, glob,
     # tempfile ...) is caught by the audit hook instead
     _SAVED = saved
